@@ -286,4 +286,161 @@ theorem translate_addr_eq_walk (k : Kind) (s : St) (p4 : Word) (va : Nat)
     have : x.base + x.off < 2^52 := by omega
     simp only [hbase, this, if_true, Option.map, Xlat.pa]
 
+/-! ### 3. `translate_page` of the three sizes = hardware walk
+
+Parents / leaf index are those of `Driver.pathOf` (`vaIdx4 va = va / 2^39 % 512`, …, by
+definition): 4 KiB `([i4,i3,i2], i1)`, 2 MiB `([i4,i3], i2)`, 1 GiB `([i4], i3)`; `huge` is
+`false / true / true`, `sz` is `4096 / 2^21 / 2^30`. `va` is any address inside the page (the
+indices used do not depend on the lower bits). -/
+
+theorem translate_page_4K_eq_for (k : Kind) (s : St) (p4 : Word) (va : Nat)
+    (h : PathOKFor k s.mem p4 va) :
+    translatePage k s p4 [va / 2^39 % 512, va / 2^30 % 512, va / 2^21 % 512] (va / 2^12 % 512)
+        false 4096 =
+      (expect4K s.mem p4 va,
+       { s with log := s.log ++ (pathReads s.mem p4 va).take (walkDepth s.mem p4 va) }) := by
+  obtain ⟨⟨h4, h4ps⟩, h3, h2, h1⟩ := h
+  have hE := tpE_4K k (ent4 s.mem p4 va) (ent3 s.mem p4 va) (ent2 s.mem p4 va)
+    (ent1 s.mem p4 va) va h4 h4ps
+    (fun a => h3 ((reach3_iff ..).2 ⟨a, h4ps⟩))
+    (fun a b c => h2 ((reach2_iff ..).2 ⟨(reach3_iff ..).2 ⟨a, h4ps⟩, b, c⟩))
+    (fun a b c d e => h1 ((reach1_iff ..).2
+      ⟨(reach2_iff ..).2 ⟨(reach3_iff ..).2 ⟨a, h4ps⟩, b, c⟩, d, e⟩))
+  rw [translatePage_eq_E, walkDepth_eq]
+  show ((tpE k false 4096 [ent4 s.mem p4 va, ent3 s.mem p4 va, ent2 s.mem p4 va]
+      (ent1 s.mem p4 va)).1,
+    { s with
+      log := s.log ++ (pathReads s.mem p4 va).take (tpE k false 4096
+                        [ent4 s.mem p4 va, ent3 s.mem p4 va, ent2 s.mem p4 va]
+                        (ent1 s.mem p4 va)).2 }) = _
+  rw [hE]; rfl
+
+/-- **`translate_page::<Size4KiB>`** returns `expect4K` and reads what the hardware reads. -/
+theorem translate_page_4K_eq (k : Kind) (s : St) (p4 : Word) (va : Nat)
+    (h : PathOK s.mem p4 va) :
+    translatePage k s p4 [va / 2^39 % 512, va / 2^30 % 512, va / 2^21 % 512] (va / 2^12 % 512)
+        false 4096 =
+      (expect4K s.mem p4 va,
+       { s with log := s.log ++ (pathReads s.mem p4 va).take (walkDepth s.mem p4 va) }) :=
+  translate_page_4K_eq_for k s p4 va (h.toFor k)
+
+/-- **`translate_page::<Size2MiB>`** returns `expect2M` (no alignment hypothesis: a misaligned
+address field is reported as `InvalidFrameAddress`) and reads the first `≤ 3` entries of the
+hardware walk. Only the entries down to level 2 need to be well-formed. -/
+theorem translate_page_2M_eq (k : Kind) (s : St) (p4 : Word) (va : Nat) (h : OK2 s.mem p4 va) :
+    translatePage k s p4 [va / 2^39 % 512, va / 2^30 % 512] (va / 2^21 % 512) true (2^21) =
+      (expect2M s.mem p4 va,
+       { s with log := s.log ++ (pathReads s.mem p4 va).take (min (walkDepth s.mem p4 va) 3) }) := by
+  obtain ⟨⟨⟨h4, h4ps⟩, h3⟩, h2⟩ := h
+  have hE := tpE_2M k (ent4 s.mem p4 va) (ent3 s.mem p4 va) (ent2 s.mem p4 va)
+    (ent1 s.mem p4 va) va (NtOK_of_entOK k h4) h4ps
+    (fun a => NtOK_of_entOK k (h3 ((reach3_iff ..).2 ⟨a, h4ps⟩)))
+    (fun a b c => h2 ((reach2_iff ..).2 ⟨(reach3_iff ..).2 ⟨a, h4ps⟩, b, c⟩))
+  rw [translatePage_eq_E, walkDepth_eq]
+  show ((tpE k true (2^21) [ent4 s.mem p4 va, ent3 s.mem p4 va] (ent2 s.mem p4 va)).1,
+    { s with
+      log := s.log ++ ([Ev.rd p4 (vaIdx4 va), .rd (tableAddr (ent4 s.mem p4 va)) (vaIdx3 va),
+                        .rd (tableAddr (ent3 s.mem p4 va)) (vaIdx2 va)]).take
+                        (tpE k true (2^21) [ent4 s.mem p4 va, ent3 s.mem p4 va]
+                          (ent2 s.mem p4 va)).2 }) = _
+  rw [hE]
+  simp only [← List.take_take]
+  rfl
+
+/-- **`translate_page::<Size1GiB>`** returns `expect1G` and reads the first `≤ 2` entries of the
+hardware walk. Only the P4 and P3 entries need to be well-formed. -/
+theorem translate_page_1G_eq (k : Kind) (s : St) (p4 : Word) (va : Nat) (h : OK3 s.mem p4 va) :
+    translatePage k s p4 [va / 2^39 % 512] (va / 2^30 % 512) true (2^30) =
+      (expect1G s.mem p4 va,
+       { s with log := s.log ++ (pathReads s.mem p4 va).take (min (walkDepth s.mem p4 va) 2) }) := by
+  obtain ⟨⟨h4, h4ps⟩, h3⟩ := h
+  have hE := tpE_1G k (ent4 s.mem p4 va) (ent3 s.mem p4 va) (ent2 s.mem p4 va)
+    (ent1 s.mem p4 va) va (NtOK_of_entOK k h4) h4ps
+    (fun a => h3 ((reach3_iff ..).2 ⟨a, h4ps⟩))
+  rw [translatePage_eq_E, walkDepth_eq]
+  show ((tpE k true (2^30) [ent4 s.mem p4 va] (ent3 s.mem p4 va)).1,
+    { s with
+      log := s.log ++ ([Ev.rd p4 (vaIdx4 va), .rd (tableAddr (ent4 s.mem p4 va)) (vaIdx3 va)]).take
+                        (tpE k true (2^30) [ent4 s.mem p4 va] (ent3 s.mem p4 va)).2 }) = _
+  rw [hE]
+  simp only [← List.take_take]
+  rfl
+
+/-! Success of `translate_page` ⇔ the walk ends in a leaf of exactly that size, and then the
+frame is the walk's base. For the huge sizes the "⇐" direction needs the leaf's address field to
+be size-aligned (bits 13..20 resp. 13..29 zero), as it is for every entry written by
+`map_to`/`identity_map` (their `PhysFrame<Size2MiB>` / `PhysFrame<Size1GiB>` argument is
+size-aligned by the type's invariant: `from_start_address` checks, `containing_address` aligns)
+and preserved by `update_flags` (`set_addr(huge_frame_addr(entry), …)`); a misaligned field makes
+`translate_page` return `InvalidFrameAddress` (see `expect2M` / `expect1G`). -/
+
+theorem expect4K_ok_iff (m : PMem) (p4 : Word) (va : Nat) (f : Word) :
+    expect4K m p4 va = .ok f ↔
+      ∃ x, walk m p4 va = some x ∧ x.size = 4096 ∧ f = BitVec.ofNat 64 x.base := by
+  unfold expect4K
+  cases walk m p4 va with
+  | none => simp
+  | some x =>
+    by_cases hs : x.size = 4096
+    · simp only [hs, if_true, Except.ok.injEq, Option.some.injEq]
+      constructor
+      · intro h; exact ⟨x, rfl, hs, h.symm⟩
+      · rintro ⟨x', hx, _, hf⟩; rw [hf, hx]
+    · simp only [hs, if_false, Option.some.injEq]
+      constructor
+      · intro h; cases h
+      · rintro ⟨x', hx, hs', _⟩; rw [← hx] at hs'; exact absurd hs' hs
+
+theorem translate_page_4K_ok_iff (k : Kind) (s : St) (p4 : Word) (va : Nat)
+    (h : PathOK s.mem p4 va) (f : Word) :
+    (translatePage k s p4 [va / 2^39 % 512, va / 2^30 % 512, va / 2^21 % 512] (va / 2^12 % 512)
+        false 4096).1 = .ok f ↔
+      ∃ x, walk s.mem p4 va = some x ∧ x.size = 4096 ∧ f = BitVec.ofNat 64 x.base := by
+  rw [translate_page_4K_eq k s p4 va h]; exact expect4K_ok_iff ..
+
+theorem translate_page_2M_ok_iff (k : Kind) (s : St) (p4 : Word) (va : Nat)
+    (h : OK2 s.mem p4 va)
+    (hal : ∀ x, walk s.mem p4 va = some x → x.size = 2^21 → ent2 s.mem p4 va &&& 0x1fe000#64 = 0#64)
+    (f : Word) :
+    (translatePage k s p4 [va / 2^39 % 512, va / 2^30 % 512] (va / 2^21 % 512) true (2^21)).1
+        = .ok f ↔
+      ∃ x, walk s.mem p4 va = some x ∧ x.size = 2^21 ∧ f = BitVec.ofNat 64 x.base := by
+  rw [translate_page_2M_eq k s p4 va h]
+  show expect2M s.mem p4 va = .ok f ↔ _
+  unfold expect2M
+  cases hw : walk s.mem p4 va with
+  | none => simp only [reduceCtorEq, false_and, exists_false, iff_false]; split <;> exact fun h => nomatch h
+  | some x =>
+    by_cases hs : x.size = 2^21
+    · simp only [hs, if_true, hal x hw hs, Except.ok.injEq, Option.some.injEq]
+      constructor
+      · intro h; exact ⟨x, rfl, hs, h.symm⟩
+      · rintro ⟨x', hx, _, hf⟩; rw [hf, hx]
+    · simp only [hs, if_false, Option.some.injEq]
+      constructor
+      · intro h; cases h
+      · rintro ⟨x', hx, hs', _⟩; rw [← hx] at hs'; exact absurd hs' hs
+
+theorem translate_page_1G_ok_iff (k : Kind) (s : St) (p4 : Word) (va : Nat)
+    (h : OK3 s.mem p4 va)
+    (hal : ∀ x, walk s.mem p4 va = some x → x.size = 2^30 → ent3 s.mem p4 va &&& 0x3fffe000#64 = 0#64)
+    (f : Word) :
+    (translatePage k s p4 [va / 2^39 % 512] (va / 2^30 % 512) true (2^30)).1 = .ok f ↔
+      ∃ x, walk s.mem p4 va = some x ∧ x.size = 2^30 ∧ f = BitVec.ofNat 64 x.base := by
+  rw [translate_page_1G_eq k s p4 va h]
+  show expect1G s.mem p4 va = .ok f ↔ _
+  unfold expect1G
+  cases hw : walk s.mem p4 va with
+  | none => simp only [reduceCtorEq, false_and, exists_false, iff_false]; split <;> exact fun h => nomatch h
+  | some x =>
+    by_cases hs : x.size = 2^30
+    · simp only [hs, if_true, hal x hw hs, Except.ok.injEq, Option.some.injEq]
+      constructor
+      · intro h; exact ⟨x, rfl, hs, h.symm⟩
+      · rintro ⟨x', hx, _, hf⟩; rw [hf, hx]
+    · simp only [hs, if_false, Option.some.injEq]
+      constructor
+      · intro h; cases h
+      · rintro ⟨x', hx, hs', _⟩; rw [← hx] at hs'; exact absurd hs' hs
+
 end X86.C01
